@@ -178,7 +178,14 @@ impl Server for SyncServer {
             .error_for_status()
         {
             Ok(resp) => {
-                let parent_version_id = get_uuid_header(&resp, "X-Parent-Version-Id")?;
+                // The response must be about the version that was asked for: the data is unsealed
+                // with the parent version id, so a response for another parent would otherwise be
+                // accepted and applied in the wrong place.
+                if get_uuid_header(&resp, "X-Parent-Version-Id")? != parent_version_id {
+                    return Err(Error::Server(String::from(
+                        "Response is for a different parent version than requested",
+                    )));
+                }
                 let version_id = get_uuid_header(&resp, "X-Version-Id")?;
                 let sealed =
                     sealed_from_resp(resp, parent_version_id, HISTORY_SEGMENT_CONTENT_TYPE).await?;
